@@ -47,7 +47,8 @@ def check(run, tier, seed, replay=None, only=None):
         exe = core.build_driver("cache_drv", flavour)
         cap = _cap(flavour)
         args = ["--mode", mode, "--family", family, "--cap", cap, "--seed", seed + shard,
-                "--maxlen", maxlen if flavour == "rel" else min(maxlen, 5), "--shard", shard, "--nshards", nshards,
+                "--maxlen", (maxlen if flavour == "rel" else min(maxlen, 5)) - (1 if family in ("C2", "R2") else 0),
+                "--shard", shard, "--nshards", nshards,
                 "--budget", (2000 if quick else 10000) // nshards]
         return core.drive(run, exe, args, "%s-%s-%s-%d" % (flavour, mode, family, shard))
 
@@ -66,6 +67,8 @@ def check(run, tier, seed, replay=None, only=None):
         for fam in ("C", "R"):
             for s in range(nsh):
                 djobs.append((fl, "seqs", fam, s, nsh))
+        for fam in ("C2", "R2"):   # Bluestein primes sharing a padded length; real lengths chained by n/2+1 = m, rejected odd requests
+            djobs.append((fl, "seqs", fam, 0, 1))
         for s in range(2 if quick else 4):
             djobs.append((fl, "random", "C", s, 2 if quick else 4))
     for fl in set(f for f, *_ in djobs):
